@@ -331,7 +331,11 @@ func (w *World) Materialize(c Cfg, variant int) *configpb.LogConfig {
 	case "unknown":
 		m.ExtKeyUsages = [][]string{{"ServerAuth", "TimeStomping"}, {"Any "}, {"wrong_usage"}, {""}}[variant%4]
 	case "any":
-		m.ExtKeyUsages = [][]string{{"Any"}, {"ServerAuth", "Any"}}[variant%2]
+		m.ExtKeyUsages = [][]string{{"Any"}, {"ServerAuth", "Any"}, {"Any", "ClientAuth"}}[variant%3]
+	case "unknownThenAny":
+		m.ExtKeyUsages = [][]string{{"TimeStomping", "Any"}, {"ServerAuth", "serverAuth", "Any"}, {"", "Any"}}[variant%3]
+	case "anyThenUnknown":
+		m.ExtKeyUsages = [][]string{{"Any", "TimeStomping"}, {"ServerAuth", "Any", "any"}, {"Any", ""}}[variant%3]
 	}
 	if c.Backend == "ctfe" {
 		m.ExtraDataIssuanceChainStorageBackend = configpb.LogConfig_ISSUANCE_CHAIN_STORAGE_BACKEND_CTFE
